@@ -368,6 +368,48 @@ def r2b_operand_shapes(chk, rule='C02.R2b'):
                 # None operands are allowed only when guarded (Cond) - they show up as `none` with another kind
                 chk.ob(rule, '%s.%s[%s]/%r' % (p.owner, p.fn.name, ' '.join(p.rhs), c), not bad,
                        '%s:%s' % (PARSER, p.fn.lineno), 'adds %s to %s: TypeError at parse time' % (sorted(ka), sorted(kb)))
+    # subscript of a value that may be None (`p[1][1]` where the symbol can be absent): TypeError at parse time, unless
+    # the access sits in the branch taken when that very value is true (`p[1] and p[1][1] or []`)
+    from vt.shapes import term_av, av_top
+    seen2 = set()
+    m = 0
+    for dname, gs in all_shapes(chk):
+        for p in gs.d.prods:
+            key = (p.owner, p.fn.name, p.rhs)
+            if key in seen2:
+                continue
+            seen2.add(key)
+            sa = lambda i, p=p: gs.sym_av(p.rhs[i - 1]) if 0 < i <= len(p.rhs) else av_top()
+
+            def idxs(t, truthy):
+                if isinstance(t, (Idx, Slc)):
+                    yield t, truthy
+                    for y in idxs(t.t, truthy):
+                        yield y
+                elif isinstance(t, Cat):
+                    for x in (t.a, t.b):
+                        for y in idxs(x, truthy):
+                            yield y
+                elif isinstance(t, (Tup, Lst)):
+                    for x in t.items:
+                        for y in idxs(x, truthy):
+                            yield y
+                elif isinstance(t, Cond):
+                    for y in idxs(t.a, truthy | set([repr(t.test)])):
+                        yield y
+                    for y in idxs(t.b, truthy):
+                        yield y
+            for t, truthy in idxs(gs.terms[p], frozenset()):
+                base = t.t
+                if repr(base) in truthy:
+                    continue
+                v = term_av(base, sa)
+                if v.top:
+                    continue
+                m += 1
+                chk.ob(rule, '%s.%s[%s]/subscript %r' % (p.owner, p.fn.name, ' '.join(p.rhs), t), not v.none,
+                       '%s:%s' % (PARSER, p.fn.lineno),
+                       'subscripts a value that is None when the optional part is absent: TypeError at parse time')
     chk.floor(rule, 30, 'concatenations in grammar actions')
 
 
@@ -707,5 +749,13 @@ def r9_identifier_classes(chk):
            'ply tries function rules in definition order: with t_NUMBER first, 3com is split into 3 and com')
 
 
+
+def r10_class_tables_not_mutated(chk):
+    """the keyword table decides which words are identifiers: a dialect that edits the shared table changes what every
+    other dialect's lexer hands to the parser (shared with C11.R11)"""
+    common.no_mutation_of_class_tables_through_aliases(chk, 'C02.R10', sorted(
+        r for r in chk.model.modules if r.startswith(('pysmi/lexer/', 'pysmi/parser/'))), floor=2)
+
+
 RULES = [r1_nothing_dropped, r2_list_idiom, r2b_operand_shapes, r3b_prepdata, r3_producer_consumer, r4_token_values, r5_layout, r6_entry_point,
-         r7_history_independence, r8_number_tokens, r9_identifier_classes]
+         r7_history_independence, r8_number_tokens, r9_identifier_classes, r10_class_tables_not_mutated]
